@@ -72,7 +72,7 @@ def make_packages(ctx):
         ("new", {"n": 5, "getset": True, "json": True, "generic": 0.6, "opt": False}),
         ("new", {"n": 8, "getset": False, "json": False, "mark": 0.0}),
         ("map", {"n": 3, "p_new": 0.5}),
-        ("map", {"n": 4, "p_new": 0.0}),
+        ("map", {"n": 4, "p_new": 0.0, "tag_first": True}),                                    # a `map:"G"` tag on the first type; the pool of field names is shared
         ("map", {"n": 2, "p_new": 0.5}),
         ("maprich", None), ("maprich", None),
         ("enum", None), ("rest", {"headers": None}), ("rest", None),
@@ -84,6 +84,7 @@ def make_packages(ctx):
     pks += detgen.hand_new_pkgs() + detgen.hand_map_pkgs(rng)
     for cmd, force in shaped:
         pks.append(detgen.GENS[cmd](rng, force))
+    pks += detgen.hand_map_tag_pkgs()      # map: tags / `-` / nested tags on field names shared between the types, tagged types first and last
     n = ctx.n(60, 360) - len(pks)
     for _ in range(max(0, n)):
         r = rng.random()
